@@ -468,6 +468,9 @@ func (t *Collection) VisitItemsRandom(
 	if err != nil {
 		return err
 	}
+	if numBlocks == 0 {
+		return nil // An empty collection has nothing to visit.
+	}
 	if (lenBlock < 1) || (numBlocks < 1) {
 		return fmt.Errorf("impossible block sizes,%d,%d", lenBlock, numBlocks)
 	}
@@ -533,6 +536,9 @@ func (t *Collection) VisitItemsAscendBlockEx(
 	//log.Println("There are ", numBlocks, " of Length ", lenBlock)
 	if err != nil {
 		return err
+	}
+	if numBlocks == 0 {
+		return nil // An empty collection has nothing to visit.
 	}
 	if (lenBlock < 1) || (numBlocks < 1) {
 		return fmt.Errorf("impossible block sizes,%d,%d", lenBlock, numBlocks)
